@@ -41,7 +41,7 @@ ASSUMPTIONS = [
     "reader can observe of a partial write",
     "chattr +i is used to make the data directory read-only for root; when unavailable the step is skipped and counted",
 ]
-MIN_NONTRIVIAL = {"quick": 40, "thorough": 1000}
+MIN_NONTRIVIAL = {"quick": 40, "thorough": 200}
 SHARD_TIMEOUT = {"quick": 1500, "thorough": 7200}
 ARCHS = ["tx2", "n1", "zen1"]
 KERNELS = {
